@@ -90,7 +90,7 @@ def Run(module, cfg=None, workers=None, timeout=3600, simulate=None, depth=None,
   cfg = cfg or (module + '.cfg')
   meta = tempfile.mkdtemp(prefix='tlc_%s_' % (tag or module),
                           dir=common.BuildDir('tlc'))
-  cmd = ['java', '-Xmx' + heap, '-XX:+UseParallelGC']
+  cmd = ['java', '-Xmx' + heap, '-Xss256m', '-XX:+UseParallelGC']
   if dfs:
     cmd.append('-Dtlc2.tool.queue.IStateQueue=StateDeque')
   cmd += ['-cp', JAR + ':/opt/veriftools/tla/CommunityModules-deps.jar',
